@@ -11,7 +11,15 @@
 (*   stored day = ch-go ToDate(UTC midnight of the sample) which adds the  *)
 (*       PROCESS time-zone offset unless the time value is in UTC          *)
 (*   read side: date >= utcDate(from - 30 min)  (sql_misc.go FormatFromDate)*)
-(* Time is in hours.  A push is one sample of one series.                  *)
+(*   writer/controller/builder.go doParse: a request is rejected as a whole*)
+(*       when ANY stream of its body fails to parse -- also when streams    *)
+(*       in front of the malformed one were already handed to onEntries     *)
+(*       (their cache keys are set at that moment); nothing of a rejected   *)
+(*       request is inserted                                                *)
+(* Time is in hours.  A push is one sample of one series, alone in its body *)
+(* (tail "none") or together with a stream that does not parse, placed      *)
+(* after it ("bad_after": the good stream was decoded, then the request     *)
+(* fails) or in front of it ("bad_before": the parser never reaches it).    *)
 (***************************************************************************)
 EXTENDS Integers, FiniteSets, TLC
 
@@ -36,23 +44,32 @@ LowerBoundDay(t) == (2 * t - 1) \div 48
 
 Init == cache = {} /\ dbSeries = {} /\ dbSamples = {} /\ acked = {} /\ npush = 0 /\ lastStatus = "none"
 
-\* one push request carrying sample (fp, t); sOk / pOk: outcome of the series / samples INSERT (after retries)
-Push(fp, t, sOk, pOk) ==
+Tails == {"none", "bad_after", "bad_before"}
+
+\* one push request carrying sample (fp, t); sOk / pOk: outcome of the series / samples INSERT (after retries);
+\* tail: the rest of the body (a stream that does not parse, after or in front of the good one)
+Push(fp, t, sOk, pOk, tail) ==
     /\ npush < MaxPushes
-    /\ LET new == <<UtcDay(t), fp>> \notin cache
-           ok == pOk /\ (new => sOk)
+    /\ LET parsed == tail = "none"                 \* the whole body parses
+           decoded == tail # "bad_before"          \* the good stream reached onEntries (its cache key was looked up / set)
+           new == <<UtcDay(t), fp>> \notin cache
+           ok == parsed /\ pOk /\ (new => sOk)
        IN \* CacheSetBeforeInsert = FALSE is the code since fix eb377cd: the key is set at parse time and forgotten again when
           \* the request fails (either INSERT), so it stays only for a request that was acknowledged
-          /\ cache' = IF new /\ (CacheSetBeforeInsert \/ ok) THEN cache \cup {<<UtcDay(t), fp>>} ELSE cache
-          /\ dbSeries' = IF new /\ sOk THEN dbSeries \cup {<<StoredDay(t), fp>>} ELSE dbSeries
-          /\ dbSamples' = IF pOk THEN dbSamples \cup {<<fp, t>>} ELSE dbSamples
+          \* -- whatever made it fail: an INSERT or a later stream of the body that does not parse
+          /\ cache' = IF new /\ ((CacheSetBeforeInsert /\ decoded) \/ ok) THEN cache \cup {<<UtcDay(t), fp>>} ELSE cache
+          /\ dbSeries' = IF parsed /\ new /\ sOk THEN dbSeries \cup {<<StoredDay(t), fp>>} ELSE dbSeries
+          /\ dbSamples' = IF parsed /\ pOk THEN dbSamples \cup {<<fp, t>>} ELSE dbSamples
           /\ acked' = IF ok THEN acked \cup {<<fp, t>>} ELSE acked
           /\ lastStatus' = IF ok THEN "2xx" ELSE "err"
     /\ npush' = npush + 1
 
 CacheReset == cache # {} /\ cache' = {} /\ UNCHANGED <<dbSeries, dbSamples, acked, npush, lastStatus>>
 
-Next == (\E fp \in Fps, t \in Times, sOk, pOk \in BOOLEAN : Push(fp, t, sOk, pOk)) \/ CacheReset
+\* (the INSERT outcomes are irrelevant for a body that does not parse: nothing is inserted)
+Next == \/ \E fp \in Fps, t \in Times, sOk, pOk \in BOOLEAN : Push(fp, t, sOk, pOk, "none")
+        \/ \E fp \in Fps, t \in Times, tail \in Tails \ {"none"} : Push(fp, t, TRUE, TRUE, tail)
+        \/ CacheReset
 Spec == Init /\ [][Next]_vars
 
 Discoverable(fp, t) == \E s \in dbSeries : s[2] = fp /\ s[1] >= LowerBoundDay(t)
